@@ -840,10 +840,8 @@ func ruleSizeDepends(c *eng.Ctx) {
 			checked[fr.Field] = true
 			c.Check(okv, R, "text.(*Extractor).showText#"+fr.Field, st.Pos(), fmt.Sprintf("%s is result %d of GetTextPosition", fr.Field, want), fmt.Sprintf("fragment %s is not result %d of GetTextPosition (coordinates swapped or taken from elsewhere)", fr.Field, want))
 		case "FontSize":
-			sl := eng.Slice(st.Val, func(call *ssa.Call) bool {
-				f := call.Call.StaticCallee()
-				return f != nil && !eng.InModule(f) // pure library helpers such as math.Sqrt
-			})
+			// data dependence through any call's arguments (math.Sqrt, or a local helper such as ctmVerticalScale(CTM))
+			sl := eng.Slice(st.Val, func(call *ssa.Call) bool { return true })
 			eff, ctm := false, false
 			for w := range sl {
 				if call, ok := w.(*ssa.Call); ok && eng.CalleeName(call) == gsType+"GetEffectiveFontSize" {
